@@ -332,6 +332,7 @@ func runC11(c *an.Ctx) {
 			continue
 		}
 		n := 0
+		anchorPredSeen := map[string]bool{}
 		an.Instrs(fn, func(in ssa.Instruction) {
 			cc := an.CallOf(in)
 			if cc == nil || cc.StaticCallee() == nil {
@@ -360,6 +361,19 @@ func runC11(c *an.Ctx) {
 				useSuffix := tempName.ReplaceAllString(an.Expr(cc.Args[3]), "")
 				c.Check(comparesWithAnchoredLiteral(cc.Args[2]), "R3", shortFn(fnName)+": prefix test only for the literal adjacent to \\A", in.Pos(), "enabled by comparing the first literal with the text that follows the anchor", "the HasPrefix test is enabled by "+usePrefix+": a literal separated from the anchor (\\A.*lit) would be required at position 0")
 				c.Check(comparesWithAnchoredLiteral(cc.Args[3]), "R3", shortFn(fnName)+": suffix test only for the literal adjacent to \\z", in.Pos(), "enabled by comparing the last literal with the text that precedes the anchor", "the HasSuffix test is enabled by "+useSuffix)
+				// the functions computing "the literal next to the anchor" recognise the anchor element with a
+				// predicate that accepts the anchor itself (possibly inside capture groups), never a
+				// concatenation that merely starts/ends with it: (\Ax?)ab has x? between \A and "ab".
+				for _, af := range anchoredLiteralFns(cc.Args[2], cc.Args[3]) {
+					for _, pred := range regexPredicatesCalledBy(af) {
+						if anchorPredSeen[an.RelName(af)+pred.Name()] {
+							continue
+						}
+						anchorPredSeen[an.RelName(af)+pred.Name()] = true
+						desc := descendsIntoConcat(pred, ops["OpConcat"])
+						c.Check(desc == "", "R3", shortFn(an.RelName(af))+": anchor element recognised by "+pred.Name()+", which accepts only the anchor itself", pred.Pos(), "no case of "+pred.Name()+" descends into a concatenation", pred.Name()+" "+desc+": a group such as (\\Ax?) counts as 'the anchor', so the literal after the group is required at position 0 although x? may precede it")
+					}
+				}
 			}
 		})
 	}
@@ -453,6 +467,86 @@ func runC11(c *an.Ctx) {
 		}
 		c.Check(ok, "R4", "newRX: the prefilter switch is part of the cache key", nr.Pos(), "key depends on options.RxPreFilterEnabled", "the @rx cache key ignores SecRxPreFilter: a WAF with the prefilter off could receive an artefact compiled with it on (or the reverse)")
 	}
+}
+
+// anchoredLiteralFns: the string-valued functions of the regex tree whose result the prefix/suffix flags compare with.
+func anchoredLiteralFns(flags ...ssa.Value) []*ssa.Function {
+	var out []*ssa.Function
+	seen := map[*ssa.Function]bool{}
+	for _, flag := range flags {
+		for d := range an.Deps(flag) {
+			b, ok := d.(*ssa.BinOp)
+			if !ok || (b.Op.String() != "==" && b.Op.String() != "!=") {
+				continue
+			}
+			for _, side := range []ssa.Value{b.X, b.Y} {
+				call, ok := side.(*ssa.Call)
+				if !ok || call.Call.StaticCallee() == nil {
+					continue
+				}
+				if bt, ok := call.Type().Underlying().(*types.Basic); !ok || bt.Kind() != types.String {
+					continue
+				}
+				for _, a := range call.Call.Args {
+					if strings.HasSuffix(a.Type().String(), "syntax.Regexp") && !seen[call.Call.StaticCallee()] {
+						seen[call.Call.StaticCallee()] = true
+						out = append(out, call.Call.StaticCallee())
+					}
+				}
+			}
+		}
+	}
+	return out
+}
+
+// regexPredicatesCalledBy: bool-valued module functions of a *syntax.Regexp that fn calls.
+func regexPredicatesCalledBy(fn *ssa.Function) []*ssa.Function {
+	var out []*ssa.Function
+	seen := map[*ssa.Function]bool{}
+	an.Instrs(fn, func(in ssa.Instruction) {
+		cc := an.CallOf(in)
+		if cc == nil || cc.StaticCallee() == nil || len(cc.StaticCallee().Blocks) == 0 {
+			return
+		}
+		callee := cc.StaticCallee()
+		res := callee.Signature.Results()
+		if res.Len() != 1 || !isBoolType(res.At(0).Type()) || len(cc.Args) == 0 || !strings.HasSuffix(cc.Args[0].Type().String(), "syntax.Regexp") {
+			return
+		}
+		if !seen[callee] {
+			seen[callee] = true
+			out = append(out, callee)
+		}
+	})
+	return out
+}
+
+func isBoolType(t types.Type) bool {
+	b, ok := t.Underlying().(*types.Basic)
+	return ok && b.Kind() == types.Bool
+}
+
+// descendsIntoConcat: under the fact re.Op == OpConcat the predicate calls something or can return true.
+func descendsIntoConcat(pred *ssa.Function, opConcat string) string {
+	for _, b := range pred.Blocks {
+		if !an.FactsAtBlock(b).HasSuffix(".Op", "==", opConcat) {
+			continue
+		}
+		for _, in := range b.Instrs {
+			if cc := an.CallOf(in); cc != nil {
+				if bi, isB := cc.Value.(*ssa.Builtin); isB && bi.Name() == "len" {
+					continue
+				}
+				return "looks inside a concatenation (call under re.Op == OpConcat)"
+			}
+			if r, ok := in.(*ssa.Return); ok && len(r.Results) == 1 {
+				if cst, isC := r.Results[0].(*ssa.Const); !isC || cst.Value == nil || cst.Value.String() != "false" {
+					return "can accept a concatenation"
+				}
+			}
+		}
+	}
+	return ""
 }
 
 // comparesWithAnchoredLiteral: the flag depends on a string equality between an extracted literal and the result
